@@ -244,7 +244,7 @@ def run(ctx):
       "jnp.split/concatenate/reshape/transpose/pad semantics are modelled in Coq on flat row-major "
       "tensors (Base.Tensor, C06.Transpose) and tied to the implementation on arange tensors: "
       "block contents for <=64 elements (C06.Check.chk_blocks), Tearfree _blockify/_deblockify and "
-      "reshaper merge/unmerge outputs for <=64 elements (C06.BlockifyModel.chk_*_tensor)"]
+      "reshaper merge/unmerge outputs for <=256 / <=128 elements (C06.BlockifyModel.chk_*_tensor)"]
   proofs_ok = ctx.proofs(PROP_FILES, extra_targets=EXTRA_TARGETS)
   broken, gen_ok = translator_obligations(ctx)
   for name, log in broken:
